@@ -54,7 +54,7 @@ CORPUS = ["testdata/condition.emb", "testdata/enum.emb", "testdata/bits.emb", "t
 def compile_under_seed(path, seed, extra_args=()):
     out = tempfile.mkdtemp(prefix="c17_", dir=core.BUILD)
     env = dict(os.environ, PYTHONHASHSEED=str(seed), PYTHONPATH=core.REPO)
-    r = subprocess.run([sys.executable, os.path.join(core.REPO, "embossc"), "--output-path", out, "--import-dir", core.REPO] + list(extra_args) + [path],
+    r = subprocess.run([sys.executable, os.path.join(core.REPO, "embossc"), "--output-path", out, "--output-file", "result.h", "--import-dir", core.REPO] + list(extra_args) + [path],
                        capture_output=True, text=True, env=env, cwd=core.REPO)
     h = hashlib.sha256()
     h.update(r.stdout.encode())
